@@ -327,6 +327,8 @@ fn f(x: u64) -> u64 {{
     // (registered constants of plain-data types: nothing to drop, but storage the code points into)
     acc = acc + LIM.low() + LIM.high() + LIM.step();
     if IpAddr.LOCALHOSTV4 == 127.0.0.1 {{ acc = acc + 1; }}
+    // (the string constants hold this version's text)
+    if {s} == "v{k}" && rc.s == "r{k}" {{ acc = acc + 1; }}
     acc + cap2() + cap3() + usez_{k}() - 1
 }}
 const ZC: Zt = mkz();
@@ -336,7 +338,8 @@ fn usez_{k}() -> u64 {{
     1
 }}
 fn lit() -> String {{ "literal-of-version-{k}" }}
-fn s(a: String) -> String {{ let rc = {rc}; a + {s} + rc.s + ks_{k}() }}
+fn lits_{k}() -> String {{ "a{k}" + "b{k}" + "c{k}" + "d{k}" }}
+fn s(a: String) -> String {{ let rc = {rc}; a + {s} + rc.s + ks_{k}() + lits_{k}() }}
 test keeps_{k} {{
     if val({c}) == {c0} && cap() > 0 {{ accept }} else {{ reject }}
 }}
@@ -840,7 +843,7 @@ fn exec_inner(op: &LifeOp) -> bool {
                     };
                     let log = take_hostlog();
                     let many: u64 = (0..many_constants(k)).filter(|i| i % 10 != 9).map(|i| i + k).sum();
-                    let want = x.wrapping_mul(k) + 2 * c + (200 + rid) + (100 + rid) + 2 + 1 + (c + 2) + k + (c + 3) + (300 + rid) + 2 + extras.iter().sum::<u64>() + many + (600 + rid) + (700 + rid) + (k + x) + 3 + x + 5 + (x + 1 + 7) + (x + 2 + 9) + 150 + (11 + rid) + 55 + 1;
+                    let want = x.wrapping_mul(k) + 2 * c + (200 + rid) + (100 + rid) + 2 + 1 + (c + 2) + k + (c + 3) + (300 + rid) + 2 + extras.iter().sum::<u64>() + many + (600 + rid) + (700 + rid) + (k + x) + 3 + x + 5 + (x + 1 + 7) + (x + 2 + 9) + 150 + (11 + rid) + 55 + 1 + 1;
                     let mut want_log: Vec<(&str, u64)> = vec![("log", *x), ("val", c), ("val", c), ("val", 200 + rid), ("cap", 100 + rid), ("val", c + 2), ("val", c + 3), ("val", 300 + rid)];
                     want_log.extend(extras.iter().map(|p| if *p >= 6000 { ("cap", *p) } else { ("val", *p) }));
                     want_log.push(("cap", 600 + rid));
@@ -856,7 +859,7 @@ fn exec_inner(op: &LifeOp) -> bool {
                     // alternate between `call` and `call_tuple`
                     let got = if x % 2 == 0 { f.call(RotoString::from("ab")) } else { f.call_tuple(&mut NoCtx, (RotoString::from("ab"),)) };
                     let log = take_hostlog();
-                    let want = format!("abv{k}r{k}ks{rid}");
+                    let want = format!("abv{k}r{k}ks{rid}a{k}b{k}c{k}d{k}");
                     {
                         let s: &str = got.as_ref();
                         if s != want || !log.is_empty() {
@@ -1324,6 +1327,8 @@ pub fn execute(d: &LifeDesc, keep_trace: bool) -> RunResult {
     // swarm knob: in one run of three freed JIT pages are handed out again instead of quarantined
     let page_reuse = crate::rng::derive(d.run_seed, &[crate::rng::label("page-reuse")]) % 3 == 0;
     alloc::PAGE_REUSE.store(page_reuse, SeqCst);
+    // ... and in half of those a module of the same shape gets every block back in the same role
+    alloc::PAGE_REUSE_SAME_ROLE.store(crate::rng::derive(d.run_seed, &[crate::rng::label("page-reuse")]) % 6 == 0, SeqCst);
     let mut res = RunResult::default();
 
     // phase 1 on the main thread (code under test allocates in RUN mode)
